@@ -8,7 +8,7 @@ to 4x4 for a binary operator (16^3 = 4096) and every (argument kinds, array
 shape, target shape) for functions of 1..3 arguments, checks the laws
 (Recalculated, BroadcastCases, FnEqualOrScalar, ShapeExact, Pointwise,
 PointwiseDecode, PointwiseSpecial, Trimmed, Repeated, Uncovered,
-OnlyUncoveredNA, MemberOwn, FitIdempotent, TargetGrowthStable,
+OnlyUncoveredNA, MemberOwn, Windows, FitIdempotent, TargetGrowthStable,
 OperandGrowthLocal) and exports one vector per state: the operand elements,
 the lifted symbolic "+" and, per target cell, the operand positions the cell
 is computed from.
@@ -19,8 +19,11 @@ Binding.
    compared with the exported result / target matrix;
  * compiled workbooks: every vector becomes an openpyxl ArrayFormula over the
    target range, for each operator / array-aware function of the catalogue;
-   evaluate(target range), evaluate(each member cell) and ranges made of
-   member cells are compared with the spec.  The value expected in a cell is
+   evaluate(target range), evaluate(each member cell) and, because a member
+   shows its own element whatever it is read through (Window in the spec),
+   evaluate(rectangle of member cells), evaluate(target + the same array
+   formula entered again next to it + plain cells) are compared with the
+   spec (OVERLAP_READS).  The value expected in a cell is
    #N/A where the spec says "uncovered", else the *scalar application* to the
    elements at the exported positions: the same operator / function applied
    in a plain (non array) formula to the single cells.  For "+" on the
@@ -42,6 +45,7 @@ from harness.evidence import Verdict
 PID = 'C13'
 MAX = 4
 NA = '#N/A'
+OVERLAP_READS = True    # also read members through ranges other than the target
 
 # ---------------------------------------------------------------------------
 # catalogue of lifted operators and functions.  Each entry: formula template
@@ -628,8 +632,8 @@ def make_tasks(cfgname, groups, tier, rnd, filedir, fraction):
                 use_sum=(template == '{0}+{1}' and domains == ('sym', 'sym')),
                 seed=zlib.crc32(tid.encode()) ^ rnd.getrandbits(30),
                 variants=rnd.random() < 0.5,
-                overlap=(tier == 'thorough' and rnd.random() < 0.5) or
-                        (tier == 'quick' and rnd.random() < 0.2),
+                overlap=OVERLAP_READS and rnd.random() < (
+                    0.5 if tier == 'thorough' else 0.2),
                 file=filedir if rnd.random() < (0.03 if tier == 'quick' else 0.05)
                 else None))
     return tasks
